@@ -2,7 +2,9 @@ package main
 
 import (
 	"fmt"
+	"github.com/uhppoted/uhppote-core/uhppote"
 	"net"
+	"net/netip"
 	"os"
 	"sync"
 	"sync/atomic"
@@ -31,6 +33,7 @@ func c04Loopback(c *Ctx) {
 		kind   string
 		reply  []byte
 		second []byte
+		cuts   []int
 	}
 	var cur atomic.Pointer[plan]
 	fm.SetScript(func(ep *farm.Endpoint, src net.Addr, req []byte, seq uint64) []farm.Action {
@@ -51,6 +54,22 @@ func c04Loopback(c *Ctx) {
 			return []farm.Action{{Data: p.reply}, {Close: true}}
 		case "two":
 			return []farm.Action{{Data: p.reply}, {Data: p.second}}
+		case "pieces":
+			// the reply arrives in two or three writes with pauses in between (TCP is a byte stream); in total 64 bytes or more
+			out := []farm.Action{}
+			rest := append(append([]byte{}, p.reply...), p.second...)
+			for i, n := range p.cuts {
+				if n > len(rest) {
+					n = len(rest)
+				}
+				d := time.Duration(0)
+				if i > 0 {
+					d = 8 * time.Millisecond
+				}
+				out = append(out, farm.Action{Delay: d, Data: rest[:n]})
+				rest = rest[n:]
+			}
+			return out
 		}
 		return []farm.Action{{Data: p.reply}}
 	})
@@ -94,7 +113,7 @@ func c04Loopback(c *Ctx) {
 	kinds := map[string][]string{
 		"udp":       {"valid", "random", "truncated", "two", "silence", "udp-closed-port", "empty"},
 		"broadcast": {"valid", "random", "truncated", "two", "silence", "empty"},
-		"tcp":       {"valid", "random", "truncated", "two", "tcp-read-close", "tcp-read-reset", "tcp-stall", "tcp-accept-close", "tcp-accept-reset", "tcp-refused", "reply-then-close"},
+		"tcp":       {"valid", "random", "truncated", "two", "tcp-read-close", "tcp-read-reset", "tcp-stall", "tcp-accept-close", "tcp-accept-reset", "tcp-refused", "reply-then-close", "pieces"},
 	}
 	ops := reqOps()
 	N := c.N(900, 30000)
@@ -137,6 +156,13 @@ func c04Loopback(c *Ctx) {
 			pl.reply, pl.second = randomBytes(r, r.Pick(80)), valid
 		case "empty":
 			pl.reply = []byte{}
+		case "pieces":
+			pl.reply = valid
+			if pl.reply == nil {
+				pl.reply = randomBytes(r, 64)
+			}
+			pl.second = randomBytes(r, []int{0, 0, 16, 40}[r.Pick(4)]) // sometimes more than 64 bytes in all
+			pl.cuts = [][]int{{40, 40, 64}, {32, 32, 64}, {1, 63, 64}, {63, 1, 64}, {20, 20, 64}, {40, 64, 64}}[r.Pick(6)]
 		}
 		cur.Store(pl)
 		cfg := ClientCfg{Bind: workerIP(c, 0) + ":0", Broadcast: bc.Addr, Timeout: T}
@@ -168,6 +194,34 @@ func c04Loopback(c *Ctx) {
 		}
 	}
 	fm.WaitIdle(2 * time.Second)
+
+	// ---- Listen on a client whose listen address is the zero value / has no port / is not an address of this host: an error, not a panic
+	for i, la := range []types.ListenAddr{{}, {AddrPort: netip.AddrPortFrom(netip.Addr{}, 60001)}, {AddrPort: netip.MustParseAddrPort("127.0.0.3:0")}, {AddrPort: netip.MustParseAddrPort("203.0.113.9:60001")}} {
+		u := uhppote.NewUHPPOTE(types.BindAddr{AddrPort: netip.MustParseAddrPort(workerIP(c, 0) + ":0")}, types.BroadcastAddr{}, la, time.Second, nil, false)
+		q := make(chan os.Signal, 1)
+		done := make(chan error, 1)
+		c.Res.Eval(1)
+		c.Res.DistinctKey("listen-bad-address", i)
+		go func() {
+			defer func() {
+				if p := recover(); p != nil {
+					c.Res.Violate("C04:loopback:listen:bad-address", fmt.Sprintf("Listen panicked on a client whose listen address is %v: %v", la, p), map[string]any{"listen": fmt.Sprint(la)}, int64(i))
+					done <- nil
+				}
+			}()
+			done <- u.Listen(&c04Listener{connected: new(atomic.Int64), on: func(*types.Status) {}}, q)
+		}()
+		select {
+		case <-done:
+		case <-time.After(500 * time.Millisecond):
+			q <- os.Interrupt
+			select {
+			case <-done:
+			case <-time.After(5 * time.Second):
+			}
+		}
+		c.Res.Count("loopback:listen-with-unusable-address", 1)
+	}
 
 	// ---- the real listener, stopped while its callback is busy
 	cycles := c.N(12, 120)
